@@ -44,6 +44,7 @@ def dispatch (line : String) : String :=
   | "lfnever" :: args => C04.lfnever args
   | "lfstatic" :: args => C04.lfstatic args
   | "lfeval" :: args => C04.lfeval args
+  | "lforrhs" :: args => C04.lforrhs args
   | "lfjoined" :: args => C04.lfjoined args
   | "lfanalyse" :: args => C04.lfanalyse args
   | "lfpossible" :: args => C04.lfpossible args
